@@ -6,7 +6,8 @@ from .common import Failure, f2h, h2f, parse_reply, vec, fs
 
 ID = "C06"
 BIN = "c06"
-PROOF_MODULES = ["Compute.Props.C06", "Compute.Lemmas.C06Perm", "Compute.Lemmas.C06Spec", "Compute.Lemmas.C06Basic"]
+PROOF_MODULES = ["Compute.Props.C06", "Compute.Lemmas.C06Perm", "Compute.Lemmas.C06Spec", "Compute.Lemmas.C06Basic",
+                 "Compute.Props.C06Families"]
 REQUIRED_THEOREMS = [
     "Cv.C06.dbeta_spec", "Cv.C06.ddbeta_spec", "Cv.C06.penalty_spec",
     "Cv.C06.fixed_point_iff_score", "Cv.C06.family_tables", "Cv.C06.gaussian_deviance_eq_rss", "Cv.C06.gaussian_normal_equations",
@@ -14,11 +15,18 @@ REQUIRED_THEOREMS = [
     "Cv.C06.standardError_spec", "Cv.C06.predict_spec", "Cv.C06.aic_spec", "Cv.C06.bic_spec",
     "Cv.C06.dbeta_perm", "Cv.C06.ddbeta_perm", "Cv.C06.deviance_perm", "Cv.C06.mean_perm",
     "Cv.C06.loopBody_perm", "Cv.C06.fitLoop_perm",
+    "Cv.C06.hasDerivAt_invLinkF", "Cv.C06.dInvLink_is_derivative", "Cv.C06.canonical_variance_eq_dInvLink",
+    "Cv.C06.canonical_variance_eq_dInvLink_list", "Cv.C06.log_link_gamma_working_weight", "Cv.C06.penalizedDeviance_ge",
+    "Cv.C06.penalizedDeviance_eq_iff", "Cv.C06.penalizedDeviance_nil", "Cv.C06.setCoef_keeps", "Cv.C06.predict_setCoef",
+    "Cv.C06.predict_setCoef_spec", "Cv.C06.initialWorking_textbook", "Cv.C06.initialIntercept_perm",
 ]
 RULE = ("six families x designs n 20..120 (quick) / 20..500 (thorough), p 1..6 with standardised random, polynomial and "
         "indicator columns x {no weights, random weights, constant c in {2,3,.5,.25,7,10}, piecewise constant, all-equal-but-one} x {no offset, offset} x alpha in {0, 0.1, 1, 10} x tolerance "
         "1e-5..1e-14 x max_iter in {1..200}, responses simulated from the model with |beta| <= 1.5; every request "
-        "followed (with probability 1/3) by the same problem with permuted rows; plus panic classes; "
+        "followed (with probability 1/3) by the same problem with permuted rows; plus panic classes; every public method of "
+        "ExponentialFamily called directly (has_dispersion, variance, inv_link, d_inv_link, deviance, penalized_deviance, "
+        "initial_working_response/weights) on domain-boundary lists and random points, GLM::set_coef after a fit / on a fresh "
+        "object / before a (re)fit with right and wrong lengths; "
         "non-trivial = distinct (family, p, weights?, offset?, alpha, tolerance decade, status)")
 EXHAUSTIVE = {"quick": False, "thorough": False}
 NOT_PROVED = [
@@ -30,6 +38,10 @@ NOT_PROVED = [
     "one fit_perm theorem; at Float the invariance holds to rounding only (oracle re-runs permuted problems)",
     "the textbook closed forms of the Poisson / Bernoulli / Gamma deviances need ln(y/mu) = ln y - ln mu: with ln abstract "
     "the theorem states the source's formula term by term (devTermF)",
+    "observation, not a finding: `penalized_deviance` adds alpha*||beta_1..||_2 (unsquared) although the ridge penalty whose "
+    "gradient alpha*beta the scoring step uses is alpha*||beta||^2; it only drives the stopping test and is modelled as it is "
+    "(opt-in check C06_SQUARED_PENALTY=1)",
+    "d_inv_link is evaluated through the rounded mean: accurate to eps*mu absolute, not relative, as mu -> 1 (oracle bound says so)",
     "correctness of the linear solver / inverse used inside the step (C01's theorems; here a hypothesis H * solve H g = g)",
 ]
 TRUSTED = [
@@ -349,6 +361,9 @@ def gen(rng, tier):
                         lines.append(mkline(fam, n, pp, x, y, w, off, alpha, rng.choice([1e-8, 1e-10, 1e-12]), 200))
                         cover["weight_structure"][kind] = cover["weight_structure"].get(kind, 0) + 1
     generic_strata(rng.fork("generic"), tier, lines, cover)
+    family_strata(rng.fork("families"), tier, lines, cover)
+    setcoef_strata(rng.fork("setcoef"), tier, lines, cover)
+    history_strata(rng.fork("history"), tier, lines, cover)
     return lines, cover
 
 
@@ -547,7 +562,268 @@ def generic_strata(rng, tier, lines, cover):
                                 None if off is None else [math.ldexp(v, k) for v in off], 0.0, tl, mi))
 
 
+# ---------------------------------------------------------------- direct calls of the ExponentialFamily methods, set_coef
+ETA_EDGE = [0.0, -0.0, 1e-300, -1e-300, 5e-324, 1e-16, -1e-16, 0.5, -0.5, 1.0, -1.0, 2.0, 36.0, 36.7, 36.8, 37.0, 40.0, -36.0, -37.0,
+            -40.0, 700.0, 709.0, 709.78, 709.79, 710.0, 745.0, 746.0, -700.0, -709.0, -709.78, -709.79, -710.0, -745.0, -745.2,
+            -746.0, 1e3, -1e3, 1e308, -1e308, float("inf"), float("-inf"), float("nan")]
+MU_EDGE = [0.0, -0.0, 5e-324, 1e-300, 1e-17, 0.25, 0.5, 1.0 - 2.0 ** -53, 1.0, 1.0 + 2.0 ** -52, 2.0, 3.0, 1e154, 1.4e154, 1e155, 1e308,
+           -0.5, -1.0, float("inf"), float("nan")]
+KLENS = [1, 2, 7, 8, 9, 15, 16, 17, 33]
+
+
+def famline(fam, meth, *args):
+    toks = []
+    for a in args:
+        toks.append(vec(a) if isinstance(a, list) else f2h(a))
+    return ("fam %s %s %s" % (fam, meth, " ".join(toks))).strip()
+
+
+def py_inv_link(fam, e):
+    """the source's formula in doubles (same libm)"""
+    try:
+        if fam == "gaussian":
+            return e
+        if fam == "bernoulli":
+            try:
+                ex = math.exp(-e)
+            except OverflowError:
+                ex = float("inf")
+            return 1.0 / (1.0 + ex)
+        return math.exp(e)
+    except OverflowError:
+        return float("inf")
+
+
+def domain_pair(rng, fam, edge):
+    """(y, mu) inside the family's domain; `edge`: close to the boundary of the domain"""
+    if fam == "gaussian":
+        return (rng.choice([0.0, -0.0, 1.0, -2.5, 1e-300, 1e150]) if edge else 3 * rng.normal(),
+                rng.choice([0.0, 1.0, -1e150, 2.5]) if edge else 3 * rng.normal())
+    if fam == "bernoulli":
+        y = float(rng.randint(0, 1))
+        mu = rng.choice([1e-300, 5e-324, 1e-17, 1.0 - 2.0 ** -53, 1.0 - 1e-12, 0.5]) if edge else rng.uniform(0.001, 0.999)
+        return y, mu
+    if fam in ("poisson", "quasipoisson"):
+        y = rng.choice([0.0, 0.0, 1.0, 2.0, 1e6, 1e15]) if edge else float(rng.randint(0, 30))
+        mu = rng.choice([1e-300, 5e-324, 1e-10, 1.0, 1e6, 1e300]) if edge else rng.loguniform(0.01, 100.0)
+        return y, mu
+    y = rng.choice([1e-300, 5e-324, 1.0, 1e150, 1e-10]) if edge else rng.loguniform(0.01, 100.0)
+    mu = rng.choice([1e-300, 1e-10, 1.0, 1e150, 1e300]) if edge else rng.loguniform(0.01, 100.0)
+    return y, mu
+
+
+def family_strata(rng, tier, lines, cover):
+    g = cover.setdefault("family_methods", {})
+
+    def add(tag, line):
+        lines.append(line)
+        g[tag] = g.get(tag, 0) + 1
+
+    nrand = 6 if tier == "quick" else 40
+    for fam in FAMILIES:
+        add("has_dispersion", famline(fam, "has_dispersion"))
+        # inv_link / d_inv_link: the boundary list once (chunked over several kernel lengths), then random points
+        edge = list(ETA_EDGE)
+        k = 0
+        while edge:
+            m = KLENS[k % len(KLENS)]
+            k += 1
+            eta, edge = edge[:m], edge[m:]
+            add("inv_link", famline(fam, "inv_link", eta))
+            add("d_inv_link", famline(fam, "d_inv_link", eta, [py_inv_link(fam, e) for e in eta]))
+        for r in range(nrand):
+            m = rng.choice(KLENS + [40, 64])
+            sc = rng.choice([1.0, 1.0, 5.0, 30.0, 300.0])
+            eta = [sc * rng.normal() for _ in range(m)]
+            add("inv_link", famline(fam, "inv_link", eta))
+            add("d_inv_link", famline(fam, "d_inv_link", eta, [py_inv_link(fam, e) for e in eta]))
+        # d_inv_link with an arbitrary mean vector, also of a different length (the Gaussian arm sizes by eta, the others by mu)
+        for r in range(3):
+            add("d_inv_link", famline(fam, "d_inv_link", [rng.normal() for _ in range(rng.randint(0, 9))],
+                                      [rng.choice(MU_EDGE) if rng.chance(0.5) else rng.uniform(0, 1) for _ in range(rng.randint(0, 9))]))
+        # variance
+        edge = list(MU_EDGE)
+        k = 0
+        while edge:
+            m = KLENS[(k + 2) % len(KLENS)]
+            k += 1
+            mu, edge = edge[:m], edge[m:]
+            add("variance", famline(fam, "variance", mu))
+        for r in range(nrand):
+            m = rng.choice(KLENS + [40])
+            mu = [rng.uniform(0, 1) if fam == "bernoulli" else rng.loguniform(1e-6, 1e6) for _ in range(m)]
+            add("variance", famline(fam, "variance", mu))
+        add("variance", famline(fam, "variance", []))
+        # deviance / penalized_deviance: inside the domain, at its boundary, outside (tie only), mismatched lengths (panic)
+        for r in range(2 * nrand):
+            m = rng.choice(KLENS + [40])
+            edge_p = rng.choice([0.0, 0.0, 0.3])
+            pairs = [domain_pair(rng, fam, rng.chance(edge_p)) for _ in range(m)]
+            y, mu = [a for a, _ in pairs], [b for _, b in pairs]
+            if r % 7 == 6:
+                y[rng.randint(0, m - 1)] = rng.choice([float("nan"), -1.0, 0.5, 0.0, 2.0])     # possibly outside the domain
+            if r % 2 == 0:
+                add("deviance", famline(fam, "deviance", y, mu))
+            else:
+                pc = rng.choice([0, 1, 2, 3, 9])
+                coef = [rng.choice([0.0, -0.0, 1.0, -1.5, 3.0, 1e-200, 1e200]) if rng.chance(0.3) else 1.5 * rng.normal() for _ in range(pc)]
+                a = rng.choice([0.0, -0.0, 0.1, 0.5, 1.0, 10.0, -1.0, 1e-300, 1e300])
+                add("penalized_deviance", famline(fam, "penalized_deviance", y, mu, a, coef))
+        add("deviance", famline(fam, "deviance", [1.0, 2.0], [1.0]))
+        add("deviance", famline(fam, "deviance", [], []))
+        add("penalized_deviance", famline(fam, "penalized_deviance", [1.0], [1.0], 1.0, []))
+        # IRLS start values
+        for r in range(nrand // 2 + 2):
+            m = rng.choice([0, 1, 2, 3, 7, 8, 9, 16, 33])
+            y = [float(rng.randint(0, 1)) if fam == "bernoulli" and rng.chance(0.7) else rng.choice([0.0, -0.0, 0.5, 0.25, 1.0, 1e-300, 1e308, float("nan"), rng.normal()])
+                 for _ in range(m)]
+            add("iwr", famline(fam, "iwr", y))
+            add("iww", famline(fam, "iww", y))
+
+
+def setcoef_line(fam, mode, alpha, tol, mi, c, prob1, prob2=None):
+    return "setcoef %s %d %s %s %d %s %s%s" % (fam, mode, f2h(alpha), f2h(tol), mi, vec(c), probtoks(*prob1),
+                                              "" if prob2 is None else " " + probtoks(*prob2))
+
+
+def setcoef_strata(rng, tier, lines, cover):
+    """GLM::set_coef at the four positions of the object's life cycle.  mode 0: `glm` line of the same fit, `# setcoef`, then
+    fit -> set_coef -> accessors (everything but coef / predict / score must be what the fit stored);  mode 1: fresh object;
+    modes 2, 3: set_coef before a (re)fit must not influence it (`# same` + the direct fit)."""
+    g = cover.setdefault("setcoef", {})
+    reps = 2 if tier == "quick" else 8
+    for rep in range(reps):
+        for fam in FAMILIES:
+            pp = rng.randint(1, 3)
+            n = rng.randint(max(20, 15 * pp), 40)
+            x, y, w, off, _ = problem(rng, fam, n, pp, rng.chance(0.4), rng.chance(0.5))
+            a, tl, mi = rng.choice(ALPHAS), rng.choice([1e-6, 1e-10]), rng.choice([100, 100, 2])
+            prob = (n, pp, x, y, w, off)
+            good = [rng.choice([0.0, -0.0, 1.0, 0.5, -1.5]) if rng.chance(0.3) else rng.uniform(-1.5, 1.5) for _ in range(pp)]
+            for c in (good, good[:pp - 1], good + [0.25], good + good, []):
+                lines.append(mkline(fam, n, pp, x, y, w, off, a, tl, mi))
+                lines.append("# setcoef")
+                lines.append(setcoef_line(fam, 0, a, tl, mi, c, prob))
+                g["after-fit"] = g.get("after-fit", 0) + 1
+            lines.append(setcoef_line(fam, 1, a, tl, mi, good, prob))
+            g["unfitted"] = g.get("unfitted", 0) + 1
+            # before a refit / a first fit: no influence
+            n2 = rng.randint(20, 30)
+            p2 = rng.randint(1, 2)
+            x2, y2, w2, o2, _ = problem(rng, fam, max(n2, 15 * p2), p2, rng.chance(0.5), rng.chance(0.5))
+            n2 = len(y2)
+            x1, y1, _, _, _ = problem(rng, fam, n, pp, False, False)
+            lines.append(setcoef_line(fam, 2, a, tl, mi, good, (n, pp, x1, y1, None, None), (n2, p2, x2, y2, w2, o2)))
+            lines.append("# same")
+            lines.append(mkline(fam, n2, p2, x2, y2, w2, o2, a, tl, mi))
+            lines.append(setcoef_line(fam, 3, a, tl, mi, [1e3] * pp, prob))
+            lines.append("# same")
+            lines.append(mkline(fam, n, pp, x, y, w, off, a, tl, mi))
+            g["before-fit"] = g.get("before-fit", 0) + 2
+
+
+# ---------------------------------------------------------------- object histories: several fits on ONE GLM object
+def hist_line(fam, steps):
+    """steps: (alpha, tol, maxiter, coef-or-None, (n, p, x, y, w, off))"""
+    return "hist %s %d %s" % (fam, len(steps), " ".join(
+        "%s %s %d %s %s" % (f2h(a), f2h(tl), mi, "0" if c is None else "1 " + vec(c), probtoks(*pr)) for a, tl, mi, c, pr in steps))
+
+
+def parse_hist(line):
+    t = line.split()
+    fam, k = t[1], int(t[2])
+    pos = 3
+    steps = []
+    for _ in range(k):
+        a, tl, mi = h2f(t[pos]), h2f(t[pos + 1]), int(t[pos + 2])
+        pos += 3
+        if t[pos] == "0":
+            c = None
+            pos += 1
+        else:
+            m = int(t[pos + 1])
+            c = [h2f(v) for v in t[pos + 2:pos + 2 + m]]
+            pos += 2 + m
+        pr, pos = _parse_problem(t, pos)
+        steps.append((a, tl, mi, c, pr))
+    return fam, steps
+
+
+def hist_twins(fam, steps):
+    """the `glm` request a FRESH object configured like the history's object at each fit would see
+    (weights / offsets persist until they are set again; everything else is overwritten by `fit`)"""
+    out = []
+    w0 = o0 = None
+    for a, tl, mi, c, (n, p, x, y, w, off) in steps:
+        w0 = w if w is not None else w0
+        o0 = off if off is not None else o0
+        out.append(mkline(fam, n, p, x, y, w0, o0, a, tl, mi))
+    return out
+
+
+def history_strata(rng, tier, lines, cover):
+    g = cover.setdefault("history", {})
+
+    def emit(tag, fam, steps, twins=True):
+        lines.append(hist_line(fam, steps))
+        g[tag] = g.get(tag, 0) + 1
+        g["fits"] = g.get("fits", 0) + len(steps)
+        if twins:
+            tw = hist_twins(fam, steps)
+            lines.append("# twins %d" % len(tw))
+            lines.extend(tw)
+
+    def prob(fam, p=None, n=None, has_w=False, has_off=False):
+        pp = p or rng.randint(1, 3)
+        nn = n or rng.randint(max(20, 15 * pp), 45)
+        x, y, w, off, _ = problem(rng, fam, nn, pp, has_w, has_off)
+        return (nn, pp, x, y, w, off)
+
+    reps = 1 if tier == "quick" else 4
+    for rep in range(reps):
+        for fam in FAMILIES:
+            good = (rng.choice(ALPHAS), rng.choice([1e-6, 1e-8, 1e-10]), 200, None)
+            short = lambda: (rng.choice([0.0, 0.1]), 1e-10, rng.choice([1, 2, 3] if fam != "gaussian" else [1, 2]), None)
+            never = lambda: (rng.choice([0.0, 1.0]), 0.0, rng.choice([5, 20]), None)
+            A, B = prob(fam), prob(fam)
+            # (a) converge, then a fit that cannot converge within its budget: same data / new data, short budget / tolerance 0
+            emit("converge-then-fail", fam, [good + (A,), short() + (A,)])
+            emit("converge-then-fail", fam, [good + (A,), short() + (B,)])
+            emit("converge-then-fail", fam, [good + (A,), never() + (B,), good + (A,)])
+            # (b) fail first, then converge
+            emit("fail-then-converge", fam, [short() + (A,), good + (A,)])
+            emit("fail-then-converge", fam, [never() + (A,), good + (B,), short() + (B,)])
+            # (c) converge on A, then on B (same shape)
+            B2 = prob(fam, p=A[1], n=A[0])
+            emit("A-then-B", fam, [good + (A,), good + (B2,)])
+            # (d) a different number of observations / predictors between the fits (long -> short, short -> long, p changes)
+            C = prob(fam, p=A[1] % 3 + 1, n=rng.randint(50, 60))
+            emit("shape-change", fam, [good + (A,), good + (C,), short() + (A,)])
+            emit("shape-change", fam, [good + (C,), short() + (A,), good + (C,)])
+            # weights set for the first fit, data of another length without new weights: the stale weights make `fit` panic
+            Aw = prob(fam, has_w=True)
+            Cn = prob(fam, n=Aw[0] + 3)
+            emit("stale-weights-panic", fam, [good + (Aw,), good + (Cn,)], twins=False)
+            # (e) setters between the fits: penalty, tolerance, weights, offsets, coefficients
+            n0, p0 = A[0], A[1]
+            Aw2 = (n0, p0, A[2], A[3], [rng.uniform(0.5, 2.0) for _ in range(n0)], None)
+            Ao = (n0, p0, A[2], A[3], None, [0.3 * rng.normal() for _ in range(n0)])
+            Awo = (n0, p0, A[2], A[3], [float(rng.randint(1, 3)) for _ in range(n0)], [0.2 * rng.normal() for _ in range(n0)])
+            emit("setters", fam, [(0.0, 1e-8, 200, None, A), (10.0, 1e-8, 200, None, A), (0.1, 1e-12, 200, None, A), (0.1, 1e-12, 2, None, A)])
+            emit("setters", fam, [(0.0, 1e-8, 200, None, A), (0.0, 1e-8, 200, None, Aw2), (0.0, 1e-8, 200, None, Ao), (1.0, 1e-8, 3 if fam != "gaussian" else 2, None, A)])
+            emit("setters", fam, [(1.0, 1e-10, 200, [1e3] * p0, Awo), (1.0, 1e-10, 1, [0.0] * p0, A), (1.0, 1e-10, 200, [-5.0] * (p0 + 1), Awo)])
+
+
 def nontrivial(line, reply):
+    if line.startswith("hist ") and not reply.startswith("#"):
+        t = line.split()
+        return "hist %s k=%s %s" % (t[1], t[2], " ".join(r.split()[0] for r in reply[1:].split(";")) if reply.startswith("=") else reply[:7])
+    if line.startswith("fam ") and not reply.startswith("#"):
+        t = line.split()
+        return "fam %s %s len=%s %s" % (t[1], t[2], t[3] if len(t) > 3 else "-", reply[:1])
+    if line.startswith("setcoef ") and not reply.startswith("#"):
+        t = line.split()
+        return "setcoef %s mode=%s ncoef=%s %s" % (t[1], t[2], t[6], reply[:3])
     if not line.startswith("glm") or not reply.startswith("="):
         return None
     try:
@@ -822,11 +1098,339 @@ def check_fit(mp, i, line, rep, fails):
     return r
 
 
+# ---------------------------------------------------------------- oracle for the directly called family methods
+DBL_MAX = 1.7976931348623157e308
+DBL_MIN = 2.2250738585072014e-308
+C_FAM = 8.0          # elementary formulas: <= C_FAM * eps relative (observed max ratio: see C06_STATS "fam*")
+STATS.update({"fam_inv": 0.0, "fam_dinv": 0.0, "fam_dderiv": 0.0, "fam_var": 0.0, "fam_dev": 0.0, "fam_pdev": 0.0})
+
+
+def _parse_args(t, k, kinds):
+    out = []
+    for kd in kinds:
+        if kd == "v":
+            m = int(t[k])
+            out.append([h2f(x) for x in t[k + 1:k + 1 + m]])
+            k += 1 + m
+        else:
+            out.append(h2f(t[k]))
+            k += 1
+    return out
+
+
+def _mp_inv_link(mp, fam):
+    if fam == "gaussian":
+        return lambda e: e
+    if fam == "bernoulli":
+        return lambda e: 1 / (1 + mp.exp(-e))
+    return mp.exp
+
+
+def _close(mp, got, ref, rel, extra_abs=0.0):
+    """got (double) vs ref (mpf, finite): relative bound, overflow to +-inf and underflow below the normal range allowed
+    exactly where the reference leaves the double range.  -> (ok, ratio in units of eps)"""
+    if got != got:
+        return False, float("inf")
+    if abs(ref) > DBL_MAX:
+        return (got == math.copysign(float("inf"), float(mp.sign(ref))) or abs(got) >= DBL_MAX), 0.0
+    if math.isinf(got):
+        return abs(ref) >= DBL_MAX * (1 - rel), 0.0
+    err = abs(mp.mpf(got) - ref)
+    bound = rel * abs(ref) + DBL_MIN + extra_abs      # results below the normal range: absolute 2^-1022
+    ratio = float(err / (EPS * abs(ref) + DBL_MIN + extra_abs / max(rel / EPS, 1)))
+    return err <= bound, ratio
+
+
+def dev_reference(mp, fam, y, mu):
+    """(textbook deviance, rounding scale) for (y, mu) inside the family's domain, else None"""
+    tot, sc = mp.mpf(0), mp.mpf(0)
+    for yy, m in zip(y, mu):
+        if not (math.isfinite(yy) and math.isfinite(m)):
+            return None
+        Y, M = mp.mpf(yy), mp.mpf(m)
+        if fam == "gaussian":
+            tot += (Y - M) ** 2
+            sc += (abs(Y) + abs(M)) ** 2
+        elif fam == "bernoulli":
+            if yy not in (0.0, 1.0) or not (0 < m < 1):
+                return None
+            tot += -2 * (mp.log(M) if yy == 1.0 else mp.log(1 - M))
+            sc += 2 * (abs(mp.log(M)) + abs(mp.log(1 - M))) + 2
+        elif fam in ("poisson", "quasipoisson"):
+            if yy < 0 or m <= 0:
+                return None
+            yl = Y * mp.log(Y) if yy > 0 else 0
+            tot += 2 * (M - Y - Y * mp.log(M) + yl)
+            sc += 2 * (abs(M) + abs(Y) + abs(Y * mp.log(M)) + abs(yl))
+        else:
+            if yy <= 0 or m <= 0 or not (DBL_MIN <= Y / M <= DBL_MAX):
+                return None      # y/mu leaves the normal double range (ln(0) = -inf in doubles): tie only
+            tot += 2 * ((Y - M) / M - mp.log(Y / M))
+            sc += 2 * (abs(Y / M) + 1 + abs(mp.log(Y / M)))
+    if sc > mp.mpf(10) ** 300 or tot > mp.mpf(10) ** 300:
+        return None       # intermediate overflow possible: tie only
+    return tot, sc
+
+
+def check_fam(mp, i, line, rep, fails):
+    t = line.split()
+    fam, meth = t[1], t[2]
+    st, toks = parse_reply(rep)
+    key = "fam:%s:%s" % (fam, meth)
+
+    def fail(msg, exp=None):
+        fails.append(Failure(i, key, msg, exp))
+
+    def getvec():
+        m = int(toks[0])
+        return [h2f(x) for x in toks[1:1 + m]]
+
+    if meth == "has_dispersion":
+        if st != "ok" or toks != ["1" if HAS_DISP[fam] else "0"]:
+            fail("has_dispersion = %r, expected %s (free dispersion: Gaussian, QuasiPoisson, Gamma)" % (toks, HAS_DISP[fam]))
+        return
+    if meth == "inv_link":
+        (eta,) = _parse_args(t, 3, "v")
+        if st != "ok":
+            return fail("inv_link panicked")
+        out = getvec()
+        if len(out) != len(eta):
+            return fail("inv_link returns %d values for %d linear predictors" % (len(out), len(eta)))
+        f = _mp_inv_link(mp, fam)
+        for e, o in zip(eta, out):
+            if e != e:
+                if o == o:
+                    return fail("inv_link(NaN) = %r" % o)
+                continue
+            if math.isinf(e):
+                exp = e if fam == "gaussian" else ((1.0 if e > 0 else 0.0) if fam == "bernoulli" else (e if e > 0 else 0.0))
+                if o != exp:
+                    return fail("inv_link(%r) = %r, expected %r" % (e, o, exp), f2h(exp))
+                continue
+            good, ratio = _close(mp, o, f(mp.mpf(e)), C_FAM * EPS)
+            stat("fam_inv", ratio, key)
+            if not good:
+                return fail("inv_link(%r) = %r, expected %s (identity / logistic / exp)" % (e, o, mp.nstr(f(mp.mpf(e)), 20)))
+        return
+    if meth == "variance":
+        (mu,) = _parse_args(t, 3, "v")
+        if st != "ok":
+            return fail("variance panicked")
+        out = getvec()
+        if len(out) != len(mu):
+            return fail("variance returns %d values for %d means" % (len(out), len(mu)))
+        for m, o in zip(mu, out):
+            if fam == "gaussian":
+                if o != 1.0:
+                    return fail("Gaussian variance function is %r, expected 1" % o)
+                continue
+            if not math.isfinite(m):
+                continue
+            M = mp.mpf(m)
+            ref = M * (1 - M) if fam == "bernoulli" else (M if fam in ("poisson", "quasipoisson") else M * M)
+            good, ratio = _close(mp, o, ref, C_FAM * EPS)
+            stat("fam_var", ratio, key)
+            if not good:
+                return fail("variance(%r) = %r, expected %s (mu(1-mu) / mu / mu^2)" % (m, o, mp.nstr(ref, 20)))
+        return
+    if meth == "d_inv_link":
+        eta, mu = _parse_args(t, 3, "vv")
+        if st != "ok":
+            return fail("d_inv_link panicked")
+        out = getvec()
+        want = len(eta) if fam == "gaussian" else len(mu)
+        if len(out) != want:
+            return fail("d_inv_link returns %d values, expected %d" % (len(out), want))
+        f = _mp_inv_link(mp, fam)
+        for k, o in enumerate(out):
+            if fam == "gaussian":
+                if o != 1.0:
+                    return fail("Gaussian d_inv_link is %r, expected 1" % o)
+                continue
+            m = mu[k]
+            if not math.isfinite(m):
+                continue
+            M = mp.mpf(m)
+            ref = M * (1 - M) if fam == "bernoulli" else M
+            good, ratio = _close(mp, o, ref, C_FAM * EPS)
+            stat("fam_dinv", ratio, key)
+            if not good:
+                return fail("d_inv_link(mu = %r) = %r, expected %s (the derivative of the inverse link written in mu)" % (m, o, mp.nstr(ref, 20)))
+            # ... and, where mu IS the inverse link of eta, the numerical derivative of the textbook inverse link at eta.
+            # mu carries half an ulp, which d mu/d eta = mu(1-mu) amplifies to an absolute eps*mu: the bound has that term.
+            if k < len(eta) and math.isfinite(eta[k]) and abs(eta[k]) <= 700 and f2h(py_inv_link(fam, eta[k])) == f2h(m):
+                E = mp.mpf(eta[k])
+                with mp.workdps(60):
+                    d = mp.diff(f, E)
+                good, ratio = _close(mp, o, d, C_FAM * EPS, extra_abs=C_FAM * EPS * abs(m))
+                stat("fam_dderiv", float(abs(mp.mpf(o) - d) / (EPS * (abs(d) + abs(M)) + DBL_MIN)), key)
+                if not good:
+                    return fail("d_inv_link at eta = %r is %r but d/d eta inv_link = %s" % (eta[k], o, mp.nstr(d, 20)))
+        return
+    if meth in ("deviance", "penalized_deviance"):
+        if meth == "deviance":
+            y, mu = _parse_args(t, 3, "vv")
+            alpha, coef = 0.0, [0.0]
+        else:
+            y, mu, alpha, coef = _parse_args(t, 3, "vvsv")
+        if len(y) != len(mu) or (meth == "penalized_deviance" and len(coef) == 0):
+            if st != "panic":
+                fail("%s on mismatched lengths / an empty coefficient vector returned %r instead of panicking" % (meth, rep[:40]))
+            return
+        if st != "ok":
+            return fail("%s panicked on well-formed arguments" % meth)
+        got = h2f(toks[0])
+        ref = dev_reference(mp, fam, y, mu)
+        if ref is None or not math.isfinite(alpha) or not all(math.isfinite(c) for c in coef):
+            return           # outside the family's domain (or overflow range): decided by the bit-exact tie only
+        dev, sc = ref
+        nrm = mp.sqrt(sum(mp.mpf(c) ** 2 for c in coef[1:]))
+        if nrm > mp.mpf(10) ** 150 or (nrm != 0 and nrm < mp.mpf(10) ** -150):
+            return           # c*c leaves the double range
+        # the source: deviance + alpha * ||coef[1..]||_2  (intercept excluded; the norm is NOT squared, see the report)
+        exp = dev + mp.mpf(alpha) * nrm
+        bound = 32 * (len(y) + 1) * EPS * (sc + abs(alpha) * nrm) + DBL_MIN
+        err = abs(mp.mpf(got) - exp)
+        stat("fam_dev" if meth == "deviance" else "fam_pdev", float(err / (bound / 32)), key)
+        if got != got or err > bound:
+            return fail("%s = %r, expected %s (textbook deviance%s)" % (meth, got, mp.nstr(exp, 20),
+                        "" if meth == "deviance" else " + alpha * ||coef[1..]||"), f2h(float(exp)))
+        if os.environ.get("C06_SQUARED_PENALTY") and meth == "penalized_deviance" and alpha > 0 and nrm != 0 and nrm != 1:
+            exp2 = dev + mp.mpf(alpha) * nrm ** 2
+            if abs(mp.mpf(got) - exp2) > bound * (1 + nrm):
+                fails.append(Failure(i, "glm:penalized-deviance-unsquared-norm",
+                                     "penalized_deviance adds alpha*||beta|| = %s, the ridge (L2) penalty whose gradient alpha*beta the scoring "
+                                     "step uses is alpha*||beta||^2 = %s" % (mp.nstr(mp.mpf(alpha) * nrm, 8), mp.nstr(mp.mpf(alpha) * nrm ** 2, 8))))
+        return
+    if meth in ("iwr", "iww"):
+        (y,) = _parse_args(t, 3, "v")
+        if fam not in ("gaussian", "bernoulli"):
+            if st != "ok" or toks != ["none"]:
+                fail("%s of a family without a closed-form IRLS start returned %r, expected None" % (meth, rep[:40]))
+            return
+        if st != "ok":
+            return fail("%s panicked" % meth)
+        n = len(y)
+        if meth == "iwr":      # z = eta + (y - mu) / (dmu/deta) at eta = 0: y (identity link), (y - 1/2) / (1/4) (logit, mu = 1/2)
+            exp = list(y) if fam == "gaussian" else [(v - 0.5) / 0.25 for v in y]
+        else:                  # W = (dmu/deta)^2 / var at eta = 0, normalised by n: 1/n, (1/4)/n
+            exp = [(1.0 if fam == "gaussian" else 0.25 * 1.0) / float(n) for _ in y]
+        if toks != vec(exp).split():
+            fail("%s = %s, expected %s" % (meth, " ".join(toks)[:120], vec(exp)[:120]), vec(exp))
+        return
+
+
+def check_setcoef_after_fit(mp, i, lines, impl, fails):
+    """lines[i-1] = the `glm` fit, lines[i] = `# setcoef`, lines[i+1] = `setcoef fam 0 ...` on the same problem"""
+    t = lines[i + 1].split()
+    fam = t[1]
+    m = int(t[6])
+    c = [h2f(x) for x in t[7:7 + m]]
+    (n, p, x, y, w, off), _ = _parse_problem(t, 7 + m)
+    key = "setcoef:%s:n%d:p%d:c%d" % (fam, n, p, m)
+    sa, ta = parse_reply(impl[i - 1])
+    sb, tb = parse_reply(impl[i + 1])
+    if sa != sb:
+        fails.append(Failure(i + 1, key, "fit -> set_coef changes the outcome of the fit itself: %s vs %s" % (sa, sb)))
+        return
+    if sa != "ok":
+        return
+    a, b = parse_result(ta), parse_result(tb)
+    if fs(b["coef"] or []) != fs(c):
+        fails.append(Failure(i + 1, key, "coef() after set_coef is %s, expected the coefficients that were set" % (b["coef"],), vec(c)))
+        return
+    hx = lambda v: v if isinstance(v, bool) or v is None else (fs(v) if isinstance(v, list) else f2h(v))
+    for name in ("ok", "dev", "disp", "cov", "se", "aic", "bic"):     # what `fit` stored must be untouched
+        if hx(a[name]) != hx(b[name]):
+            fails.append(Failure(i + 1, key, "set_coef changed %s: %s -> %s (only the coefficient vector may change)" % (name, hx(a[name])[:60] if isinstance(hx(a[name]), str) else a[name], hx(b[name])[:60] if isinstance(hx(b[name]), str) else b[name])))
+            return
+    if p == 0 or m % p != 0:
+        if b["pred"] is not None:
+            fails.append(Failure(i + 1, key, "predict with %d coefficients for %d columns returned a value instead of panicking" % (m, p)))
+        return
+    if m != p:
+        return      # k*p coefficients: matmul treats them as a p x k matrix (tie only)
+    if b["pred"] is None or len(b["pred"]) != n:
+        fails.append(Failure(i + 1, key, "predict after set_coef panicked or has the wrong length"))
+        return
+    if not all(math.isfinite(v) for v in c):
+        return
+    f = _mp_inv_link(mp, fam)
+    for ii in range(n):
+        eta = sum(mp.mpf(x[ii * p + j]) * mp.mpf(c[j]) for j in range(p)) + (mp.mpf(off[ii]) if off is not None else 0)
+        ea = sum(abs(mp.mpf(x[ii * p + j]) * mp.mpf(c[j])) for j in range(p)) + (abs(mp.mpf(off[ii])) if off is not None else 0)
+        ref = f(eta)
+        err = abs(mp.mpf(b["pred"][ii]) - ref)
+        bnd = C_PRED * EPS * ((ea + mp.mpf(10) ** -300) if fam == "gaussian" else abs(ref) * (1 + ea)) + DBL_MIN
+        if err > bnd:
+            fails.append(Failure(i + 1, key, "predict after set_coef: observation %d is %r, expected inv_link(x.c + offset) = %s" % (
+                ii, b["pred"][ii], mp.nstr(ref, 17)), f2h(float(ref))))
+            return
+
+
 def oracle(lines, impl):
     mp = _mp()
     fails = []
     results = {}
     for i, (l, rep) in enumerate(zip(lines, impl)):
+        if l.startswith("fam "):
+            try:
+                check_fam(mp, i, l, rep, fails)
+            except Exception:
+                if os.environ.get("C06_DEBUG"):
+                    raise
+            continue
+        if l.startswith("setcoef "):
+            t = l.split()
+            if t[2] == "1":      # never fitted: coef() is what was set, deviance() is Err, predict panics on p = None
+                m = int(t[6])
+                exp = "= %s P P" % vec([h2f(v) for v in t[7:7 + m]])
+                if rep.strip() != exp:
+                    fails.append(Failure(i, "setcoef:unfitted:" + t[1], "set_coef on a fresh object: reply %r, expected %r" % (rep[:80], exp[:80]), exp))
+            continue
+        if l.startswith("hist "):
+            # every fit of a history: Ok => the score equations hold (the same mpmath checks as for a single fit, on the
+            # equivalent fresh-object request);  the report (status and every accessor) equals the fresh twin's, bit for bit
+            try:
+                fam, steps = parse_hist(l)
+                tw = hist_twins(fam, steps)
+                st, _ = parse_reply(rep)
+                has_tw = i + 1 < len(lines) and lines[i + 1].startswith("# twins")
+                if st == "panic":
+                    if has_tw and any(not impl[i + 2 + j].startswith("! panic") for j in range(len(tw))) and \
+                            all(not impl[i + 2 + j].startswith("! panic") for j in range(len(tw))):
+                        fails.append(Failure(i, "history:%s:panic" % fam, "a history of fits panicked although every fit succeeds on a fresh object"))
+                    continue
+                if st != "ok":
+                    fails.append(Failure(i, "crash:hist %s" % fam, "executor reply %r" % rep[:80]))
+                    continue
+                reps = [r.strip() for r in rep.strip()[1:].split(";")]
+                if len(reps) != len(steps):
+                    fails.append(Failure(i, "history:%s:shape" % fam, "%d reports for %d fits" % (len(reps), len(steps))))
+                    continue
+                for j, rj in enumerate(reps):
+                    check_fit(mp, i, tw[j], "= " + rj, fails)
+                    if has_tw and impl[i + 2 + j].strip() != "= " + rj:
+                        a = impl[i + 2 + j].split()
+                        b = rj.split()
+                        what = ("status %s, the fresh object answers %s" % ("Ok" if b[0] == "1" else "Err", "Ok" if a[1:2] == ["1"] else ("Err" if a[1:2] == ["0"] else a[:2]))
+                                if a[1:2] != b[0:1] else "the accessors differ from those of a fresh object configured identically")
+                        fails.append(Failure(i, "history:%s:fit%d-of-%d" % (fam, j + 1, len(steps)),
+                                             "fit %d of %d on one GLM object (after %s): %s" % (
+                                                 j + 1, len(steps), " -> ".join("Ok" if r.split()[0] == "1" else "Err" for r in reps[:j]) or "nothing", what),
+                                             impl[i + 2 + j].strip()))
+                        break
+            except Exception:
+                if os.environ.get("C06_DEBUG"):
+                    raise
+            continue
+        if l.startswith("# setcoef") and 0 < i < len(lines) - 1:
+            try:
+                check_setcoef_after_fit(mp, i, lines, impl, fails)
+            except Exception:
+                if os.environ.get("C06_DEBUG"):
+                    raise
+            continue
         if not l.startswith("glm"):
             continue
         st, toks = parse_reply(rep)
